@@ -123,6 +123,11 @@ def values(thorough):
     yield "mixed-list-top", L(None, True, I(1), F("1.5"), "s", L(I(1)), T(("a", I(1))))
     for v in (L(T(("a", I(1))), L(I(1), I(2)), "s", None), L(T(("a", I(1))), T(("b", I(2)))), L("a", "b"), L(), L(L()), L(None), L("---"), L("a\n---\nb")):
         yield "multi-doc-list", v
+    # documents that end in line breaks, in every position of a stream of two or three (what separates two documents must
+    # not become part of the one before)
+    for st in ("x\n", "a\n\n", "\n", "\n\n", "l1\nl2\n\n\n"):
+        for v in (L(st, I(1)), L(I(1), st), L(st, st), L(st, "plain", st), L(T(("k", st)), T(("k", st)))):
+            yield "multi-doc-list-ending-in-line-breaks", v
     yield "constraint", T(("k", {"k": 1}))
     yield "constraint-top", {"k": 1}
     yield "constraint-in-list", T(("k", L({"k": 1})))
